@@ -1624,8 +1624,8 @@ example : Gen.FactsC02.stringSearch = [
 /-- `Model.foldChange` -/
 example : Gen.FactsC02.stringWrite = [
   "if !inv.params.CaseSensitive",
-  "*v5.CurrentData<-*v5.CurrentData",
-  "*v5.PreviousData<-*v5.PreviousData",
+  "*a1.CurrentData<-*a1.CurrentData",
+  "*a1.PreviousData<-*a1.PreviousData",
   "=> inv.inner.InsertUpdateDelete(v2, v4)"
 ] := rfl
 
@@ -1639,8 +1639,8 @@ example : Gen.FactsC02.stringArraySearch = [
 /-- `Model.foldArrChange` -/
 example : Gen.FactsC02.stringArrayWrite = [
   "if !inv.params.CaseSensitive",
-  "v5.CurrentData[v6]<-v5.CurrentData[v6]",
-  "v5.PreviousData[v7]<-v5.PreviousData[v7]",
+  "a1.CurrentData[a2]<-a1.CurrentData[a2]",
+  "a1.PreviousData[a3]<-a1.PreviousData[a3]",
   "=> inv.inner.InsertUpdateDelete(v2, v4)"
 ] := rfl
 
